@@ -576,6 +576,35 @@ theorem planar_degrees (a b : List ℝ) :
   rw [Real.sqrt_mul (by positivity), Real.sqrt_sq (by positivity)]
   field_simp
 
+/-- **Cartesian trees on a grid stored at radius `R`**: the tree metric is the chord between the
+    STORED points, `R` times the unit-sphere chord (rows of any width) -/
+theorem cartesian_radius_scale (R : ℝ) (hR : 0 ≤ R) (a b : List ℝ) :
+    l2 FR (a.map (· * R)) (b.map (· * R)) = R * l2 FR a b := by
+  unfold l2
+  rw [sum_sq_scale]
+  simp only [FR]
+  rw [Real.sqrt_mul (by positivity), Real.sqrt_sq hR]
+
+/-- hence, for `R > 0`, the same elements are returned in the same order as on the unit sphere -/
+theorem cartesian_radius_knn (R : ℝ) (hR : 0 < R) (q : List ℝ) (els : List (List ℝ)) (k : Nat) :
+    (bruteKnn leR (els.map (fun e => l2 FR (q.map (· * R)) (e.map (· * R)))) k).map Prod.snd
+      = (bruteKnn leR (els.map (fun e => l2 FR q e)) k).map Prod.snd := by
+  have : els.map (fun e => l2 FR (q.map (· * R)) (e.map (· * R)))
+      = (els.map (fun e => l2 FR q e)).map (fun d => R * d) := by
+    rw [List.map_map]
+    apply List.map_congr_left
+    intro e _
+    exact cartesian_radius_scale R hR.le q e
+  rw [this]
+  apply knn_rekey
+  intro a _ b _
+  simp only [leR]
+  rw [decide_eq_decide]
+  exact mul_le_mul_iff_of_pos_left hR
+
+example : l2 FR ([1, 0, 0].map (· * (5 / 2))) ([0, 1, 0].map (· * (5 / 2))) = 5 / 2 * l2 FR [1, 0, 0] [0, 1, 0] :=
+  cartesian_radius_scale (5 / 2) (by norm_num) _ _
+
 /-- **documented unit, haversine ball tree, degrees**: the user's `(lon, lat)` query and the
     grid's `(lon, lat)` element, both in degrees, reach the haversine formula as
     `(lat, lon)` radians on both sides, and the result is reported in degrees. -/
